@@ -632,6 +632,30 @@ Definition parse_repl (toks : list tok) : res repl_meta :=
     end
   end.
 
+(* ---------- coordinator/sync.rs: the two messages ProxyMetaRespSender::send_meta builds for a proxy ----------
+   filter_proxy_masters, generate_repl_meta_cmd_args, generate_proxy_meta_cmd_args.  A proxy without a cluster name
+   reports its nodes as free masters under the empty cluster name and sends an empty SETCLUSTER under that name.
+   (`HashMap::insert` keeps the last entry of a repeated address; node addresses are distinct in broker output.) *)
+Record cnode := MkCNode { cn_addr : tok; cn_master : bool; cn_slots : list slot_range; cn_repl_peers : list (tok * tok) }.
+Record cproxy := MkCProxy { cp_name : option tok; cp_epoch : N; cp_nodes : list cnode; cp_peers : nodemap; cp_config : config }.
+
+Definition coord_repl (p : cproxy) : repl_meta :=
+  match cp_name p with
+  | None => MkRepl (cp_epoch p) (MkFlags false false) (map (fun n => MkRec [] (cn_addr n) []) (cp_nodes p)) []
+  | Some name =>
+    MkRepl (cp_epoch p) (MkFlags false false)
+      (map (fun n => MkRec name (cn_addr n) (cn_repl_peers n)) (filter cn_master (cp_nodes p)))
+      (map (fun n => MkRec name (cn_addr n) (cn_repl_peers n)) (filter (fun n => negb (cn_master n)) (cp_nodes p)))
+  end.
+
+Definition coord_pcm (compress : bool) (p : cproxy) : pcm :=
+  match cp_name p with
+  | None => MkPcm (cp_epoch p) (MkFlags false compress) [] [] (cp_peers p) (cp_config p)
+  | Some name =>
+    MkPcm (cp_epoch p) (MkFlags false compress) name
+      (map (fun n => (cn_addr n, cn_slots n)) (filter cn_master (cp_nodes p))) (cp_peers p) (cp_config p)
+  end.
+
 (* ---------- normal forms, well-formedness and the known-finding class predicates ---------- *)
 Definition norm_rl (rl : list range) : list range := match compact rl with Some c => c | None => rl end.
 Definition norm_sr (sr : slot_range) : slot_range := MkSR (norm_rl (sr_ranges sr)) (sr_tag sr).
